@@ -44,6 +44,21 @@ func rejectionReason(modelEndpoints []string, reason string) string {
 	return reason
 }
 
+// restrictToCandidates keeps the refreshed endpoints the caller offered as candidates
+func restrictToCandidates(updated, candidates []*domain.Endpoint) []*domain.Endpoint {
+	allowed := make(map[string]struct{}, len(candidates))
+	for _, c := range candidates {
+		allowed[c.URLString] = struct{}{}
+	}
+	kept := make([]*domain.Endpoint, 0, len(updated))
+	for _, e := range updated {
+		if _, ok := allowed[e.URLString]; ok {
+			kept = append(kept, e)
+		}
+	}
+	return kept
+}
+
 // GetRoutableEndpoints refreshes discovery then routes based on updated model information
 func (s *DiscoveryStrategy) GetRoutableEndpoints(
 	ctx context.Context,
@@ -193,6 +208,10 @@ func (s *DiscoveryStrategy) GetRoutableEndpoints(
 			constants.RoutingReasonDiscoveryErrorFallback,
 		), nil
 	}
+
+	// the caller's candidates are a constraint (a provider route hands in only that provider's
+	// endpoints): the refresh may bring newer state for them, it must never widen the set
+	updatedHealthy = restrictToCandidates(updatedHealthy, healthyEndpoints)
 
 	// note: we can't get updated model endpoints here without registry access
 	// in practice, the registry would need to be updated during discovery
